@@ -93,9 +93,10 @@ impl SimpleDawg {
             }
         }
 
-        // Mark final state as terminal
-        self.states.insert(current_state, true);
-        self.num_keys += 1;
+        // Mark final state as terminal; an already terminal state is a re-insert
+        if self.states.insert(current_state, true) != Some(true) {
+            self.num_keys += 1;
+        }
         Ok(())
     }
 
